@@ -131,12 +131,19 @@ func driveC11(c *h.Ctx) error {
 		"(call, call call, Close, Close call, call Close call); (2) failure chains over successive connections incl. failing dials, exhaustive to length 3, random to length 6; " +
 		"(3) every cancellation / concurrent Close instant (before the call, send.loaded hook, Write parked in the transport, roundtrip.sent hook, reply held back, inside the dialer) " +
 		"alone and combined with failures; (4) races: the next call started without waiting, at the instant the server closes the connection after replying, " +
-		"after an abandoned or failed call; (5) random compositions. Non-trivial: at least one failure, trigger, Close or negotiation; distinct by scenario text")
+		"after an abandoned or failed call; (5) random compositions; (6) calls issued while Client.Close is parked inside the transport's Close (oracle only). Non-trivial: at least one failure, trigger, Close or negotiation; distinct by scenario text")
+	if c.Replay != nil {
+		if cs, _ := c.Replay["case"].(map[string]any); cs != nil && cs["leg"] == "close-race" {
+			c11CloseRace(c)
+			return ccDrive(c, "C11", nil, "cases_C11.v", nil)
+		}
+	}
 	cases, replay, err := ccReplayCases(c)
 	if err != nil {
 		return err
 	}
 	if !replay {
+		c11CloseRace(c)
 		cases = append(cases, ccGenSingle()...)
 		cases = append(cases, ccGenChains(c.Rng.Fork(11), c.Pick(150, 1500))...)
 		cases = append(cases, ccGenTriggers()...)
